@@ -205,10 +205,10 @@ def parse_ann(path):
 
 # ---------------------------------------------------------------- staging
 def preprocess(harness, defines, incdirs, out):
-    cmd = ['goto-cc', '-E', '-I', REPO]
+    cmd = ['goto-cc', '-E']
     for d in incdirs:
         cmd += ['-I', d]
-    cmd += ['-I', VERIF]
+    cmd += ['-I', REPO, '-I', VERIF]
     for k, v in defines.items():
         cmd.append('-D%s=%s' % (k, v) if v is not None else '-D%s' % k)
     cmd += [harness, '-o', out]
@@ -311,6 +311,24 @@ def _stage(harness, defines, ann_files, workdir, ops=None, incdirs=()):
             anns[k] = v
     # The clause texts may use macros of the contract headers: they are preprocessed together
     # with the harness (appended after it, behind marker lines) and cut off again.
+    # textual substitution of a capacity macro in a copy of a /repo header (reported in evidence)
+    subst_reports = []
+    pre_inc = []
+    for op in ops or []:
+        if op[0] == 'subst_define':
+            _, fname, macro, value = op
+            src = open(os.path.join(REPO, fname)).read()
+            pat = re.compile(r'^(#define[ \t]+%s[ \t]+)(.*)$' % re.escape(macro), re.M)
+            if len(pat.findall(src)) != 1:
+                raise StageError('subst_define %s in %s: %d matches (want 1)' % (macro, fname, len(pat.findall(src))))
+            old = pat.search(src).group(2)
+            sd = os.path.join(workdir, 'subst_%s' % key)
+            os.makedirs(sd, exist_ok=True)
+            open(os.path.join(sd, os.path.basename(fname)), 'w').write(pat.sub(lambda m: m.group(1) + value, src))
+            pre_inc.append(sd)
+            subst_reports.append('%s: #define %s %s  replaced by  %s (CBMC cannot build the full-size object)'
+                                 % (fname, macro, old.strip(), value))
+    ops = [op for op in (ops or []) if op[0] != 'subst_define'] or None
     wrap = os.path.join(workdir, 'w_%s.c' % key)
     recs = []
     with open(wrap, 'w') as f:
@@ -320,7 +338,7 @@ def _stage(harness, defines, ann_files, workdir, ops=None, incdirs=()):
                 recs.append((fn, k))
                 f.write('__VPANN_MARK__ %d\n%s\n' % (len(recs) - 1, anns[fn]['clauses'][k]))
         f.write('__VPANN_MARK__ end\n')
-    cmd = preprocess(wrap, defines, list(incdirs) + [os.path.dirname(harness)], raw)
+    cmd = preprocess(wrap, defines, pre_inc + list(incdirs) + [os.path.dirname(harness)], raw)
     text = open(raw).read()
     if recs:
         cut = text.index('__VPANN_MARK__ 0')
@@ -342,6 +360,7 @@ def _stage(harness, defines, ann_files, workdir, ops=None, incdirs=()):
     if not ops and strip_injected(new, anns) != text:
         raise StageError('self-check failed: staged text minus injected clauses differs from preprocessor output')
     open(out, 'w').write(new)
+    report['ops'] = report.get('ops', []) + subst_reports
     report['pp_cmd'] = ' '.join(cmd)
     report['staged'] = out
     return out, report
